@@ -36,7 +36,7 @@ fn main() {
         "C05" => pcrep::run_c05(ctx),
         "C14" => pc01::run_c14(ctx),
         "C10" => { pc10::run(ctx); pcchan::run(ctx, "C10") }
-        "C11" => pc11::run(ctx),
+        "C11" => { pc11::run(ctx); pcrep::run_emitted(ctx, "C11") }
         "C17" => pc17::run(ctx),
         "C12" => pc12::run(ctx),
         "C15" => pc15::run(ctx),
